@@ -12,7 +12,7 @@ ALL = [f"C{i:02d}" for i in range(1, 21)]
 CHECKS = {
     "C01": dict(
         category="exploration",
-        technique="TLA+ program generators (ProgGen.tla, Closing.tla) enumerated by TLC; every format_code run recorded and validated by TLC against PipelineTrace.tla (FinalObs) with an execution oracle",
+        technique="TLA+ program generators (ProgGen.tla, Closing.tla; programs of Reach.tla, BoolAlg.tla, Rename.tla, Alpha.tla, Surface.tla fed in) enumerated by TLC; every format_code run recorded and validated by TLC against PipelineTrace.tla (FinalObs) with an execution oracle",
         text=("Programs are the states of ProgGen.tla (typed block grammar; every program well typed by construction) and the "
               "repository's example snippets under the closing environments of Closing.tla, kept when the original terminates "
               "normally twice with identical output. Each (program, option vector) is formatted under the recorder and TLC "
@@ -24,7 +24,7 @@ CHECKS = {
     ),
     "C02": dict(
         category="exploration",
-        technique="every rule x every program of the C01 space; each firing is a single-step trace validated by TLC against PipelineTrace.tla (KeepValid, FinalObs) with an execution oracle",
+        technique="every rule x every program of the C01 space, plus Dataflow.tla (collecting semantics of created / needed names; two-loop programs, observable tests) and Alpha.tla programs; each firing is a single-step trace validated by TLC against PipelineTrace.tla (KeepValid, FinalObs) with an execution oracle",
         text=("The rule catalogue is read from main.py on every run; every rule is applied in isolation (fresh parse caches) to every "
               "program of the C01 space; every firing is a single-step trace  Enter; Rule(r); Return  validated by TLC. A result that "
               "only lacks an import the pipeline adds afterwards is observed after add_missing_imports. Evidence lists per-rule firing "
@@ -126,7 +126,7 @@ CHECKS = {
     ),
     "C11": dict(
         category="model_checking",
-        technique="TLA+ input cover (Layout.tla) enumerated by TLC; clause KeepAst of PipelineTrace.tla validated by TLC on every layout stage event; layout stages replayed in isolation",
+        technique="TLA+ input covers (Layout.tla: literals; Skeleton.tla: statements, lazy imports and blank runs at three depths) enumerated by TLC; clause KeepAst of PipelineTrace.tla validated by TLC on every layout stage event; layout stages replayed in isolation",
         text=("Layout.tla enumerates literal kinds x content features (tabs, trailing blanks, blank-line runs, long lines, continuations, "
               "hashes, deep indentation) x placements x line lengths; each module is formatted under the recorder and TLC checks on every "
               "layout stage event that the position-free tree (docstring whitespace normalised) is unchanged; every layout stage is also "
@@ -136,13 +136,14 @@ CHECKS = {
     ),
     "C12": dict(
         category="model_checking",
-        technique="TLA+ models (Matcher.tla, Search.tla) enumerated exhaustively by TLC; every case replayed into core.match_template / pattern_matching.finditer+findall",
+        technique="TLA+ models (Matcher.tla, Search.tla, Fields.tla) enumerated exhaustively by TLC; every case replayed into core.match_template / pattern_matching.finditer+findall",
         text=("Matcher.tla contains the declarative (regular-expression) reading of list patterns and an implementation-shaped "
               "model of the greedy count-vector search; TLC checks ImplMatch => IdealMatch and completeness without an outer "
               "repetition on the whole bounded space and writes both verdicts for every (template, node list) case; each case is "
               "replayed with a hand-built template and a compiled {{..}} pattern. Search.tla enumerates sources with occurrences "
-              "in every container kind and the expected occurrence set is compared with finditer/findall. Bounded, exhaustive "
-              "within the stated bounds."),
+              "in every container kind and the expected occurrence set is compared with finditer/findall. Fields.tla: optional parts "
+              "of 27 syntax forms (absent / literal / wildcard, pattern x code) and 58 expression contexts holding nested occurrences. "
+              "Bounded, exhaustive within the stated bounds."),
         note=("Trusted: TLC, the renderer of abstract cases to Python text. Known finding KF-C12-1 (greedy list matching) is "
               "identified as the TLC-computed Gap set and the code answering exactly what the Impl model answers."),
         design_ref="DESIGN.md sections 3.6, 5 (C12)",
